@@ -250,7 +250,9 @@ struct ExCheck : Check {
 		else if (k == 1) sub = "s/" + std::string(1, "abc"[r.below(3)]) + "/<&>/";
 		else if (k == 2) sub = "s/" + gen_pattern(r) + "/Q/g";
 		else if (k == 3) { g.emit(g.good_range() + "y q", "", "y"); sub = "pu q"; }
-		else if (k == 4) sub = "-1d";
+		// (the two-address forms delete two lines at or above the visited one, so the scan for the next
+		// marked line has to restart from a lower line than the one it was on)
+		else if (k == 4) { static const char *up[] = {"-1d", "-1d", "-1,.d", "-2,-1d", "-2,.d"}; sub = up[r.below(5)]; }
 		else if (k == 5) sub = ".,+1d";
 		else if (k == 6) { g.emit(g.good_range() + "y q", "", "y"); sub = "-1pu q"; }
 		else if (k == 7) sub = "+1s/a/Z/";
